@@ -2,7 +2,7 @@
 // Every definition of a bounded grammar is loaded by the real MessageMap; every accepted input
 // combination is built with prepareMaster, looked up again with find, stored together with every
 // slave answer of the value domain and decoded; chained messages additionally receive their parts
-// in every arrival order with virtual time gaps {0, 1, 16*parts} s (time() is owned by the harness).
+// in every arrival order with virtual time gaps {0, 1, one day per part} s (time() is owned by the harness).
 #include <algorithm>
 #include <deque>
 #include <functional>
@@ -24,6 +24,8 @@ using c09::Shape;
 using c09::Kind;
 
 // ---- virtual clock ---------------------------------------------------------------------------
+// "much later": a gap no collection window of a chained message reaches (the window length is not part of the statement)
+static const long LATE_S = 86400;
 static time_t g_now = 1700000000;
 extern "C" time_t time(time_t* t) noexcept {
   if (t) *t = g_now;
@@ -452,7 +454,7 @@ static void runChained(Ctx* c, size_t si, const RefDef& d, Loaded& A, const Filt
         string gs; bool small = true;
         vector<time_t> gaps;
         unsigned x = gi;
-        for (size_t i = 1; i < P; i++) { unsigned g = x % 3; x /= 3; gs += (char)('0' + g); gaps.push_back(g == 0 ? 0 : g == 1 ? 1 : (time_t)(16 * P)); if (g == 2) small = false; }
+        for (size_t i = 1; i < P; i++) { unsigned g = x % 3; x /= 3; gs += (char)('0' + g); gaps.push_back(g == 0 ? 0 : g == 1 ? 1 : (time_t)(LATE_S * P)); if (g == 2) small = false; }
         bool isTarget = !flt.on || (flt.perm == ps && flt.gaps == gs);
         c->judging = isTarget;
         c->log = wantLog && isTarget;
@@ -483,17 +485,18 @@ static void runChained(Ctx* c, size_t si, const RefDef& d, Loaded& A, const Filt
           if (c->log) printf(" round 2 part %u arrives: storeLastData(%s, %s) -> %s\n", (unsigned)k, c09::toHex(rp2.masters[k]).c_str(), c09::toHex(rp2.slaves[k]).c_str(), rc(r).c_str());
         }
         decodeCheck(c, d, mb, val2, "chain-rejoin", hs);
-        // round 3, much later (16*parts s, outside any collection window): the first values again, parts in the
+        // round 3, much later (one day per part: outside any collection window, whatever its configured length -
+        // the statement does not fix the window, the implementation uses some seconds per part): the first values again, parts in the
         // order of this history.  While the round is incomplete the message must not show a value the device
         // never had (parts of round 2 joined with parts of round 3); once complete it shows the new value.
-        g_now += (time_t)(16 * P);
+        g_now += (time_t)(LATE_S * P);
         for (size_t k = 0; k < P; k++) {
           MasterSymbolString ms; SlaveSymbolString ss;
           fill(&ms, rp.masters[perm[k]]); fill(&ss, rp.slaves[perm[k]]);
           result_t r = mb->storeLastData(ms, ss);
           R.transitions++;
           R.state(vp::fnv(hs + "/r3/" + std::to_string(k)));
-          if (c->log) printf(" round 3 (%us later) part %d arrives: storeLastData(%s, %s) -> %s\n", (unsigned)(16 * P), perm[k], c09::toHex(rp.masters[perm[k]]).c_str(), c09::toHex(rp.slaves[perm[k]]).c_str(), rc(r).c_str());
+          if (c->log) printf(" round 3 (%us later) part %d arrives: storeLastData(%s, %s) -> %s\n", (unsigned)(LATE_S * P), perm[k], c09::toHex(rp.masters[perm[k]]).c_str(), c09::toHex(rp.slaves[perm[k]]).c_str(), rc(r).c_str());
           if (k + 1 < P) {
             std::ostringstream out;
             result_t dr = mb->decodeLastData(pt_any, false, nullptr, -1, OF_NAMES, &out);
@@ -501,7 +504,7 @@ static void runChained(Ctx* c, size_t si, const RefDef& d, Loaded& A, const Filt
             if (c->log) printf("  decodeLastData while the round is incomplete -> %s \"%s\" (previous complete value %s, new value %s)\n", rc(dr).c_str(), out.str().c_str(), joinStr(val2.pairs).c_str(), joinStr(val.pairs).c_str());
             if (dr == RESULT_OK && !samePairs(out.str(), val2.pairs) && !samePairs(out.str(), val.pairs))
               report(c, string("C09/chain-mixed-rounds/") + shapeClass(*d.shape) + "/" + lenModeName(*d.shape),
-                     "after " + std::to_string(k + 1) + " of " + std::to_string(P) + " parts of a round " + std::to_string(16 * P) + " s after the previous one decoded \"" + out.str() +
+                     "after " + std::to_string(k + 1) + " of " + std::to_string(P) + " parts of a round " + std::to_string(LATE_S * P) + " s after the previous one decoded \"" + out.str() +
                      "\": neither the previous complete value " + joinStr(val2.pairs) + " nor the new one " + joinStr(val.pairs), hs);
           }
         }
